@@ -115,6 +115,7 @@ var (
 	flagW      = flag.Int("workers", 0, "worker processes")
 	flagPrefix = flag.String("prefix", "", "debug: run the single scenario selected by -only with this comma separated choice prefix and print the trace")
 	flagList   = flag.Bool("list", false, "list scenarios")
+	flagEvName = flag.String("evname", "", "evidence file base name (default: the property id); used by multi-stage checks")
 )
 
 func choicesOf(r *vsched.Result) []int {
@@ -539,7 +540,11 @@ func coordinatorMain(h *Harness) {
 	exhaustive := capped == "" && pendingPrefixes == 0
 
 	// replay files of earlier runs of this tier are stale now
-	if old, _ := filepath.Glob(filepath.Join(*flagVerif, "replays", h.Property, tier+"-*.json")); len(old) > 0 {
+	rprefix := tier
+	if *flagEvName != "" {
+		rprefix = tier + "." + *flagEvName
+	}
+	if old, _ := filepath.Glob(filepath.Join(*flagVerif, "replays", h.Property, rprefix+"-*.json")); len(old) > 0 {
 		for _, f := range old {
 			os.Remove(f)
 		}
@@ -559,10 +564,10 @@ func coordinatorMain(h *Harness) {
 			continue
 		}
 		nUnknown++
-		path := filepath.Join(*flagVerif, "replays", h.Property, fmt.Sprintf("%s-%d.json", tier, i))
+		path := filepath.Join(*flagVerif, "replays", h.Property, fmt.Sprintf("%s-%d.json", rprefix, i))
 		os.MkdirAll(filepath.Dir(path), 0o755)
 		b, _ := json.MarshalIndent(map[string]any{
-			"property": h.Property, "scenario": v.Scenario, "sc": v.Sc, "tier": tier, "choices": v.Choices, "labels": v.Labels,
+			"stage": *flagEvName, "property": h.Property, "scenario": v.Scenario, "sc": v.Sc, "tier": tier, "choices": v.Choices, "labels": v.Labels,
 			"clause": v.Clause, "sig": v.Sig, "detail": v.Detail, "trace": v.Trace, "executions_with_this_signature": sigCount[v.Sig],
 		}, "", " ")
 		os.WriteFile(path, b, 0o644)
@@ -785,7 +790,11 @@ func WriteEvidence(verif, id, tier string, seed int, level string, cov map[strin
 	}
 	b, _ := json.MarshalIndent(ev, "", " ")
 	os.MkdirAll(filepath.Join(verif, "evidence"), 0o755)
-	if err := os.WriteFile(filepath.Join(verif, "evidence", id+".json"), b, 0o644); err != nil {
+	name := id
+	if *flagEvName != "" {
+		name = *flagEvName
+	}
+	if err := os.WriteFile(filepath.Join(verif, "evidence", name+".json"), b, 0o644); err != nil {
 		fmt.Fprintf(os.Stderr, "ENGINE-ERROR: cannot write evidence: %v\n", err)
 		os.Exit(2)
 	}
